@@ -13,6 +13,7 @@ import (
 	"regexp"
 	"sort"
 	"strings"
+	"sync"
 
 	"golang.org/x/tools/go/ast/astutil"
 	"golang.org/x/tools/go/packages"
@@ -31,6 +32,8 @@ type World struct {
 	maxInline int
 	files     map[string]*ast.File // by filename
 	loadErrs  []string
+	globLen   map[*ssa.Global]int64 // package-level slices/arrays initialised once: their length
+	globOnce  sync.Once
 }
 
 const modulePath = "github.com/blugelabs/bluge"
@@ -308,4 +311,65 @@ func sweepSpecs(w *World, sw *Sweep, specs *Specs) []*FuncSpec {
 	}
 	sort.Slice(out, func(i, j int) bool { return out[i].Key < out[j].Key })
 	return out
+}
+
+// constLenGlobals: package-level slice variables of the module that are assigned exactly once,
+// in the package initialiser, from an array literal of known length (lookup tables). Their
+// length is a constant of the program.
+func (w *World) constLenGlobals() map[*ssa.Global]int64 {
+	w.globOnce.Do(func() {
+		w.globLen = map[*ssa.Global]int64{}
+		stores := map[*ssa.Global]int{}
+		cand := map[*ssa.Global]int64{}
+		for _, sp := range w.spkgs {
+			if !inMod(sp.Pkg.Path(), modulePath) {
+				continue
+			}
+			fns := allFuncs(w, sp)
+			if ini := sp.Func("init"); ini != nil {
+				fns = append(fns, ini)
+				fns = append(fns, ini.AnonFuncs...)
+			}
+			seenFn := map[*ssa.Function]bool{}
+			for _, fn := range fns {
+				if seenFn[fn] {
+					continue
+				}
+				seenFn[fn] = true
+				for _, b := range fn.Blocks {
+					for _, in := range b.Instrs {
+						st, ok := in.(*ssa.Store)
+						if !ok {
+							continue
+						}
+						g, ok := st.Addr.(*ssa.Global)
+						if !ok {
+							continue
+						}
+						stores[g]++
+						if fn.Name() != "init" {
+							stores[g] += 100
+							continue
+						}
+						if sl, ok := st.Val.(*ssa.Slice); ok && sl.Low == nil && sl.High == nil {
+							if al, ok := sl.X.(*ssa.Alloc); ok {
+								if at, ok := al.Type().(*types.Pointer).Elem().Underlying().(*types.Array); ok {
+									cand[g] = at.Len()
+								}
+							}
+						}
+					}
+				}
+			}
+		}
+		for g, n := range cand {
+			if stores[g] == 1 {
+				w.globLen[g] = n
+			}
+		}
+		if os.Getenv("GOVC_DEBUG_GLOBALS") != "" {
+			fmt.Fprintf(os.Stderr, "constLenGlobals: %d candidates, %d accepted\n", len(cand), len(w.globLen))
+		}
+	})
+	return w.globLen
 }
